@@ -391,3 +391,109 @@ pub fn ladder(u: &Universe, hk: HK, n_max: usize) -> (Vec<Root>, Vec<Op>) {
     }
     (roots, alpha)
 }
+
+
+/// Dense seeds: a 32-bucket table at (or near) its load limit under the
+/// identity-like SameTag hasher, with entries displaced from their home
+/// buckets, explored with a per-key alphabet over a structurally chosen key
+/// set: the displaced entries, the occupants of their home buckets, the
+/// entries next to the EMPTY region, and absent keys whose home bucket is
+/// EMPTY / occupied / colliding. This is where hashbrown's EMPTY / DELETED /
+/// growth_left bookkeeping interacts with the cache's own re-insertions.
+pub fn dense_seeds(u: &Universe, thorough: bool, skips: &[crate::contain::Skip], first_phase: usize) -> Vec<Seed> {
+    let mut v: Vec<Seed> = vec![];
+    let d = if thorough { 4 } else { 3 };
+    let last = (u.vheaps.len() - 1) as u8;
+    for variant in 0..5usize {
+        let cfg = Config { hk: HK::SameTag, cap: if variant == 4 { None } else { Some(28) }, limit: usize::MAX };
+        let mut prefix: Vec<Op> = vec![];
+        if variant >= 3 {
+            // scattered EMPTY holes (buckets 8, 21, 30, 31) in a table at its load
+            // limit, and keys displaced to the buckets right after their home:
+            // 0 -> bucket 0, 32 -> bucket 1, 64 -> bucket 2 (inserted first)
+            for id in [0u16, 32, 64] {
+                prefix.push(Op::InsertRaw { k: id, vheap: 1 });
+            }
+            for id in (3u16..=7).chain(9..=20).chain(22..=29) {
+                prefix.push(Op::InsertRaw { k: id, vheap: (id % 3) as u32 });
+            }
+        } else {
+        // 25 keys in their home buckets 0..24, then three keys that collide with 0, 1, 2
+        for id in 0..25u16 {
+            prefix.push(Op::InsertRaw { k: id, vheap: (id % 3) as u32 });
+        }
+        for id in [32u16, 33, 34] {
+            prefix.push(Op::InsertRaw { k: id, vheap: 1 });
+        }
+        }
+        match variant {
+            0 | 3 | 4 => {}
+            1 => {
+                // free two slots again: one next to the EMPTY region, one in the middle of the run
+                prefix.push(Op::Remove { k: 24, b: false });
+                prefix.push(Op::Remove { k: 10, b: true });
+            }
+            _ => {
+                // churn: free a home bucket, then let another key consume the growth budget
+                prefix.push(Op::Remove { k: 0, b: false });
+                prefix.push(Op::InsertRaw { k: 29, vheap: 0 });
+                prefix.push(Op::Get { k: 5, b: true });
+            }
+        }
+        let phase = first_phase + v.len();
+        crate::contain::set_phase(phase as u64);
+        if let Some(sk) = skips.iter().find(|s| s.kind == 3 && s.phase == phase as u64) {
+            v.push(broken_seed(cfg, prefix.clone(), "dense", prefix.len(), sk.reason.clone()));
+            continue;
+        }
+        reg_reset();
+        crate::contain::mark(3, 0, &[], None);
+        let ex = rebuild(u, &cfg, &prefix);
+        if let Err(why) = crate::state::walk(&ex.cr().verif_dump()) {
+            std::mem::forget(ex);
+            let n = prefix.len();
+            v.push(broken_seed(cfg, prefix, "dense", n, why));
+            continue;
+        }
+        let obs = observe(ex.cr(), usize::MAX);
+        let dump = ex.cr().verif_dump();
+        crate::contain::idle();
+        drop(ex);
+        let total = obs.sum(u.e);
+        prefix.push(Op::SetMaxRaw { v: total + 3 * u.e });
+        let tombstones = dump.ctrl.iter().filter(|c| **c == 0x80).count();
+        let keys: Vec<u16> = if variant >= 3 {
+            // displaced keys, their home occupant, the neighbours of every hole, absent keys whose
+            // home is a hole / occupied / colliding
+            vec![0, 32, 64, 3, 7, 9, 20, 22, 29, 8, 21, 30, 1, 96]
+        } else {
+            vec![32, 33, 34, 0, 1, 2, 23, 24, 10, 28, 29, 35, 64]
+        };
+        let mut alpha = vec![];
+        for &k in &keys {
+            alpha.push(Op::Remove { k, b: k % 2 == 0 });
+            alpha.push(Op::Insert { k, h: 0 });
+            alpha.push(Op::Mutate { k, h: 2, b: k % 2 == 1 });
+            alpha.push(Op::Mutate { k, h: 0, b: false });
+            alpha.push(Op::Get { k, b: true });
+        }
+        alpha.push(Op::TryInsert { k: 30, h: 1 });
+        alpha.push(Op::Mutate { k: 33, h: last, b: false });
+        alpha.push(Op::RemoveLru);
+        alpha.push(Op::RemoveMru);
+        alpha.push(Op::ShrinkToFit);
+        alpha.push(Op::Reserve { a: 1 });
+        alpha.push(Op::CloneSwap);
+        alpha.push(Op::SetMaxRaw { v: total / 2 });
+        v.push(Seed {
+            root: Root { cfg, prefix, label: format!("dense: {} entries, {} tombstones, displaced entries, per-key alphabet, {}", obs.entries.len(), tombstones, cfg.show()) },
+            alpha,
+            depth: d,
+            extra_ids: vec![28, 29, 30, 35, 64],
+            len: obs.entries.len(),
+            tombstones,
+            broken: None,
+        });
+    }
+    v
+}
